@@ -530,8 +530,15 @@ func Explore(t *testing.T, r *Run, o *SchedOpts) {
 			maxPts = len(x.points)
 		}
 		if x.Diverged != "" {
+			// the same prefix offered a different set of choices than when it was recorded:
+			// the execution is not a function of the schedule (state kept between
+			// executions, nondeterminism outside the scheduler).  The rest of this scenario
+			// cannot be explored soundly: it is abandoned and the run reports an
+			// infrastructure error.
 			fmt.Fprintf(os.Stderr, "%s scenario %s prefix %v\n", x.Diverged, o.Name, x.prefix)
-			os.Exit(3)
+			r.InfraError(fmt.Sprintf("%s (scenario %s)", x.Diverged, o.Name))
+			capped = true
+			return
 		}
 		if x.Horizon {
 			r.Add("horizon_hits", 1)
